@@ -207,7 +207,7 @@ def _current(ts_text, now):
     return ts_text is not None and re.fullmatch(r"\d+", ts_text) and abs(int(ts_text) - exp) <= TS_TOLERANCE_MS, exp
 
 
-def verify_binance(req, signed=True, now=None):
+def verify_binance(req, signed=True, now=None, secret=None):
     """Like the exchange: HMAC-SHA256(secret, raw query without '&signature=...' || raw body) == transmitted signature."""
     path, _, query = req["raw_path"].partition("?")
     if req["headers"].get("X-MBX-APIKEY") != KEY:
@@ -219,7 +219,7 @@ def verify_binance(req, signed=True, now=None):
         return "no signature at the end of the query string"
     signed_part = query[:m.start()]
     payload = signed_part + req["body"].decode()
-    exp = hmac.new(SECRET.encode(), payload.encode(), hashlib.sha256).hexdigest()
+    exp = hmac.new((secret or SECRET).encode(), payload.encode(), hashlib.sha256).hexdigest()
     if exp != m.group(2):
         return f"signature does not verify over the transmitted bytes {payload!r}"
     ts = re.search(r"(^|&)timestamp=(\d+)", signed_part)
@@ -229,13 +229,13 @@ def verify_binance(req, signed=True, now=None):
     return None
 
 
-def verify_bitstamp(req, now=None):
+def verify_bitstamp(req, now=None, secret=None):
     """v2: HMAC over 'BITSTAMP key' + method + host + path + query + content type + nonce + timestamp + version + body."""
     h = req["headers"]
     path, _, query = req["raw_path"].partition("?")
     msg = (h.get("X-Auth", "") + req["method"] + (req["host"] or "") + path + query + h.get("Content-Type", "") +
            h.get("X-Auth-Nonce", "") + h.get("X-Auth-Timestamp", "") + h.get("X-Auth-Version", "") + req["body"].decode())
-    exp = hmac.new(SECRET.encode(), msg.encode(), hashlib.sha256).hexdigest()
+    exp = hmac.new((secret or SECRET).encode(), msg.encode(), hashlib.sha256).hexdigest()
     if h.get("X-Auth") != "BITSTAMP " + KEY:
         return "X-Auth does not carry the key"
     if exp != h.get("X-Auth-Signature"):
